@@ -276,7 +276,7 @@ def run(rep, drv):
 		steps = []
 		for step in range(rng.randint(2, 6)):
 			avail = [t for t in need if all(a in attrs for a in need[t]) and t != attrs.get('type')]
-			if hist is not None and attrs.get('type') == 'CD' and len(attrs['probabilities']) >= 2 and rng.random() < .4:
+			if hist is not None and attrs.get('type') == 'CD' and len(attrs['probabilities']) >= 2 and len(attrs['demand_list']) == len(attrs['probabilities']) and rng.random() < .4:
 				# the list attributes edited IN PLACE (the object keeps the same list): two probabilities swapped, or one demand value moved
 				i_, j_ = rng.sample(range(len(attrs['probabilities'])), 2)
 				if rng.random() < .6 and attrs['probabilities'][i_] != attrs['probabilities'][j_]:
